@@ -233,8 +233,10 @@ class Ctx(object):
         self.violation(nm, info, confirmed)
 
     # ---------------------------------------------------------------- table invariants / judgements
-    def item(self, ident, ok, detail="", sample=None):
-        """One closed obligation decided by evaluation (table row x clause, effect judgement)."""
+    def item(self, ident, ok, detail="", sample=None, confirm=None):
+        """One closed obligation decided by evaluation (table row x clause, effect judgement).  For a table row the
+        witness is the row itself (real data).  For a judgement about code, `confirm` (called only on failure) looks
+        for a failing input on the real code: -> {"inputs":..., "violation":...} or None."""
         self.obligations += 1
         self.table_items += 1
         if ok:
@@ -248,6 +250,17 @@ class Ctx(object):
             self.report_known(k)
             self.obligations -= 1   # carved out: not counted as an obligation of this run
             self.extra.setdefault("known_findings_reproduced", []).append(ident)
+            return
+        if confirm is not None:
+            try:
+                res = confirm()
+            except Exception as e:
+                res = {"error": str(e)[:300]}
+            if res and res.get("violation"):
+                self.violation(ident, {"detail": detail, "site": sample, "inputs": res.get("inputs"),
+                                       "observed": res["violation"]}, confirmed=True)
+            else:
+                self.violation(ident, {"detail": detail, "site": sample, "replay_attempt": res}, confirmed=False)
             return
         self.violation(ident, {"detail": detail, "inputs": sample}, confirmed=True)
 
